@@ -6,7 +6,7 @@
 (* small grids) or one micro-step of the running driver.  Every invariant  *)
 (* is therefore evaluated between any two node expansions of any history.  *)
 (***************************************************************************)
-EXTENDS SD, Json
+EXTENDS SD, Json, IOUtils
 
 CONSTANTS MaxCalls,      \* bound on the number of public calls in a history
           NetMode,       \* "all2" | "file"
@@ -19,7 +19,7 @@ CONSTANTS MaxCalls,      \* bound on the number of public calls in a history
 VARIABLES S, D, fr, calls, hist, plain
 
 AllNets2 == LET TT == [1..4 -> {0, 1}] IN {[n |-> 2, f |-> <<a, b>>] : a \in TT, b \in TT}
-FileNets == IF NetMode = "file" THEN ndJsonDeserialize("catalogue.ndjson") ELSE <<>>
+FileNets == IF NetMode = "file" THEN ndJsonDeserialize(IF "CATALOGUE" \in DOMAIN IOEnv THEN IOEnv.CATALOGUE ELSE "catalogue.ndjson") ELSE <<>>
 Nets == IF NetMode = "all2" THEN AllNets2 ELSE {FileNets[i].net : i \in DOMAIN FileNets}
 
 Lims == Limits \cup {Unl}
@@ -97,6 +97,9 @@ Micro ==
 
 Next == NewCall \/ Micro
 Spec == Init /\ [][Next]_allvars
+\* C13 (drivers): every public call that has started eventually returns
+FairSpec == Spec /\ WF_allvars(Micro)
+CallsTerminate == [](~fr.done => <>fr.done)
 
 (***************************************************************************)
 (* Invariants                                                              *)
@@ -130,6 +133,15 @@ AllExpanded == \A n \in Ids(D) : D.nodes[n].expanded
 Inv_Seeds == (fr.done /\ AllExpanded /\ AllSeedsKnown(D, Ids(D)))
              => /\ AtLeastOnce(S, D, Ids(D))
                 /\ ((\A n \in Ids(D) : ~D.nodes[n].skipped) \/ NoMAA(S)) => SeedBijection(S, D, Ids(D))
+
+\* coverage goal for directed schedule generation (C20): one step raises the depth of an expanded
+\* node by two or more while one of its children already sat at an intermediate depth, so the
+\* propagation to descendants has to pass through a node that is neither at the old nor the new level
+DeepRelax ==
+    \E c \in DOMAIN D.nodes :
+        /\ D.nodes[c].expanded /\ D'.nodes[c].depth >= D.nodes[c].depth + 2
+        /\ \E x \in Succs(D, c) : D.nodes[x].depth > D.nodes[c].depth + 1 /\ D.nodes[x].depth <= D'.nodes[c].depth
+NoDeepRelax == [][~DeepRelax]_allvars
 
 \* schedule emission: one history per distinct idle abstract state (hist is outside the VIEW)
 Emit == (fr.done /\ calls >= EmitFrom) => PrintT(ToJson([net |-> S.nt, maxm |-> cfg.maxm, failat |-> cfg.failat, hist |-> hist]))
